@@ -144,7 +144,11 @@ def run_digest(sc: dict, junk: int, holder: dict | None = None) -> dict:
     mon = GlobalGenMonitor(junk)
     opts = {"simgen": False, "tape_criteria": False, "probe_check_move": False, "probe_distribution": False}
     try:
+        if holder is not None and sc.get("share_calculator") and holder.get("calc") is not None:
+            opts["calc_object"] = holder["calc"]  # the calculator the previous simulation of this scenario used
         w = make_world(sc, [mon], opts, disk)
+        if holder is not None and sc.get("share_calculator"):
+            holder["calc"] = w.calc
         if holder is not None and sc.get("route") == "from_dict" and hasattr(w.mc, "from_dict"):
             _rebuild_from_state(w, sc, disk, holder)
         w.run()
@@ -234,6 +238,10 @@ class C06(HistoryCampaign):
             # every process (seeded C06-5: set iteration over strings follows PYTHONHASHSEED)
             sc["fresh"] = rnd.random() < 0.5
         sc["hashseed"] = rnd.randint(1, 4000)
+        if sc["driver"] not in ("ForceBias", "AdaptiveForceBias") and sc.get("route") != "from_dict" and rnd.random() < 0.3:
+            # one calculator object serves both simulations, one after the other (usual for expensive calculators):
+            # the second starts with a calculator whose cache describes the end of the first
+            sc["share_calculator"] = True
         return sc
 
     def sample_view(self, sc):
